@@ -23,6 +23,31 @@ CHECKS = {
    ref="DESIGN.md 5/C08"),
 }
 
+REF = SIM + "; real loader+server+handlers over simulated seams; independent RFC peer and executable reference model of the documented AAA/admission semantics as oracle"
+CHECKS.update({
+ "C07": dict(tech=REF + "; model-free history clause: exactly one write per handler invocation",
+   text="Exploration: the whole reference server (real YAML/JSON loader, prefix provider, Start router, ASCII/PAP, stringy authorizer, log accounter) runs in the bubble under generated configurations; seeded request histories over all AAA paths including error paths and rejection workloads; the history oracle counts packets written inside every handler invocation and checks that rejected packets reach no handler and close the connection.",
+   note="Configurations, request sequences and schedules are sampled. Keychain-error path depends on the bcrypt keychain seam.", ref="DESIGN.md 5/C07"),
+ "C10": dict(tech=REF,
+   text="Exploration against an executable reference model: generated user/group/scope/authenticator configurations are loaded by the real loader; model clients run every START variant, ASCII and PAP logins, aborts, stray CONTINUEs and mid-exchange STARTs interleaved on shared connections; every reply status is compared with the model (soundness on every run, completeness in fault-free runs).",
+   note="Out-of-place or malformed packets fall into enumerated ambiguity bands where only 'never PASS' is asserted.", ref="DESIGN.md 5/C10"),
+ "C11": dict(tech=REF + "; whole-string regexp semantics restated with Go's regexp on \\A(?:p)\\z",
+   text="Exploration against an independent policy evaluator: generated ordered permit/deny rules with alternations, partial anchors, escaped metacharacters, invalid syntax and whitespace, user/group layering and services with match conditions; requests with arbitrary argument lists; outcome observed end to end through loader, server and authorizer.",
+   note="Schedule search contributes nothing here; the deciding element is the independent evaluator plus seeded sampling of policies and requests. Invalid patterns and ADD/REPL-by-request-only are enumerated bands.", ref="DESIGN.md 5/C11"),
+ "C12": dict(tech=REF + "; simulated accounting sink rendering Printf exactly; record decoded independently and compared byte for byte",
+   text="Exploration: accounting requests with every flag combination and text over all 128 ASCII codes; the oracle requires, for every SUCCESS, exactly one sink record written before the reply that decodes to exactly the request.",
+   note="The sink interface cannot report disk faults; loss is modelled as connection faults around the sink call.", ref="DESIGN.md 5/C12"),
+ "C13": dict(tech=REF + "; simulated listener hands out connections with arbitrary remote addresses; independent admission evaluator",
+   text="Exploration: generated documents with overlapping prefixes, deny/allow lists, IPv4/IPv6/IPv4-mapped/non-TCP remote addresses at prefix boundaries; the oracle checks refusal (zero bytes, no handler) or the bound scope key and user set against the evaluator.",
+   note="IPv4-mapped addresses against short IPv6 prefixes and scopes without loadable users are enumerated bands.", ref="DESIGN.md 5/C13"),
+ "C18": dict(tech=REF + "; simulated logger records every call; token scan",
+   text="Exploration: unique 20-character passwords and shared secrets; all authentication histories including error, abort and unrecognised paths; nothing the server hands to its logger (messages, records minus obscured keys, retained context fields) may contain a token in raw, hex, base64 or byte-list form.",
+   note="Only what reaches the logger interfaces is observed; the logger retains context fields as the reference implementation's commented-out code would.", ref="DESIGN.md 5/C18"),
+ "C19": dict(tech=REF + "; independent classifier of the length-consistency rule",
+   text="Exploration: clients holding a different secret than the server (and the converse: same secret, or the clear flag); bodies classified by the independent model as mismatch / well-formed / grey; mismatch must yield one error packet of the right type and a closed connection with no handler, well-formed must be dispatched.",
+   note="Grey-zone bodies are not asserted beyond C07/C14 invariants.", ref="DESIGN.md 5/C19"),
+})
+
 def main():
     checks = []
     for pid in ALL:
